@@ -289,7 +289,8 @@ def run(ck):
     ck.harness_build(["evalsrv"])
     g = lang.Gen(ck.rng)
     n = 150 if ck.tier == "quick" else 5000
-    progs = [g.program() for _ in range(n)]
+    progs = list(lang.CORPUS) + [g.program() for _ in range(n)]
+    ck.cov["corpus_programs"] = len(lang.CORPUS)
     res = compare(ck, [[p] for p in progs])
     nontrivial = set()
     for p, (e, m) in zip(progs, res):
